@@ -77,6 +77,13 @@ Inductive wphase := WApp | WWaitOpen | WQueue | WJoin (slot : Z).
 (* a read_exact call in progress: requested length, chunks obtained so far (latest first) *)
 Record pread := mkPread { pr_slot : Z; pr_want : Z; pr_len : Z; pr_chunks : list (list Z) }.
 
+(* ghost state (no influence on behaviour or observations; used by the end-to-end theorems):
+   [g_wlog]: one entry per OPEN this stream has sent, newest first: the handle that writes that
+             incarnation and the DATA payloads handed to the writer task for it so far (latest first);
+   [g_rn]:   number of OPEN frames recv_open has consumed (the incarnation the read half is in);
+   [g_rdc]:  payload chunks read_exact has taken in the current incarnation, latest first *)
+Record sghost := mkSG { g_wlog : list (Z * list (list Z)); g_rn : nat; g_rdc : list (list Z) }.
+
 Record rstream := mkStream {
   s_cap : Z;
   s_rph : rphase;            (* read half: held by the application / recv_open discarding / OPEN received *)
@@ -85,15 +92,25 @@ Record rstream := mkStream {
   s_cache : option frame;    (* ReadReusableStream::cache *)
   s_closed : bool;           (* close_received *)
   s_wbuf : list Z;           (* WriteReusableStream::buffer *)
-  s_pread : option pread }.
+  s_pread : option pread;
+  s_g : sghost }.
 
-Definition set_rph (s : rstream) (x : rphase) := mkStream (s_cap s) x (s_wph s) (s_inq s) (s_cache s) (s_closed s) (s_wbuf s) (s_pread s).
-Definition set_wph (s : rstream) (x : wphase) := mkStream (s_cap s) (s_rph s) x (s_inq s) (s_cache s) (s_closed s) (s_wbuf s) (s_pread s).
-Definition set_inq (s : rstream) (x : list frame) := mkStream (s_cap s) (s_rph s) (s_wph s) x (s_cache s) (s_closed s) (s_wbuf s) (s_pread s).
-Definition set_cache (s : rstream) (x : option frame) := mkStream (s_cap s) (s_rph s) (s_wph s) (s_inq s) x (s_closed s) (s_wbuf s) (s_pread s).
-Definition set_closed (s : rstream) (x : bool) := mkStream (s_cap s) (s_rph s) (s_wph s) (s_inq s) (s_cache s) x (s_wbuf s) (s_pread s).
-Definition set_wbuf (s : rstream) (x : list Z) := mkStream (s_cap s) (s_rph s) (s_wph s) (s_inq s) (s_cache s) (s_closed s) x (s_pread s).
-Definition set_pread (s : rstream) (x : option pread) := mkStream (s_cap s) (s_rph s) (s_wph s) (s_inq s) (s_cache s) (s_closed s) (s_wbuf s) x.
+Definition set_rph (s : rstream) (x : rphase) := mkStream (s_cap s) x (s_wph s) (s_inq s) (s_cache s) (s_closed s) (s_wbuf s) (s_pread s) (s_g s).
+Definition set_wph (s : rstream) (x : wphase) := mkStream (s_cap s) (s_rph s) x (s_inq s) (s_cache s) (s_closed s) (s_wbuf s) (s_pread s) (s_g s).
+Definition set_inq (s : rstream) (x : list frame) := mkStream (s_cap s) (s_rph s) (s_wph s) x (s_cache s) (s_closed s) (s_wbuf s) (s_pread s) (s_g s).
+Definition set_cache (s : rstream) (x : option frame) := mkStream (s_cap s) (s_rph s) (s_wph s) (s_inq s) x (s_closed s) (s_wbuf s) (s_pread s) (s_g s).
+Definition set_closed (s : rstream) (x : bool) := mkStream (s_cap s) (s_rph s) (s_wph s) (s_inq s) (s_cache s) x (s_wbuf s) (s_pread s) (s_g s).
+Definition set_wbuf (s : rstream) (x : list Z) := mkStream (s_cap s) (s_rph s) (s_wph s) (s_inq s) (s_cache s) (s_closed s) x (s_pread s) (s_g s).
+Definition set_pread (s : rstream) (x : option pread) := mkStream (s_cap s) (s_rph s) (s_wph s) (s_inq s) (s_cache s) (s_closed s) (s_wbuf s) x (s_g s).
+Definition set_g (s : rstream) (x : sghost) := mkStream (s_cap s) (s_rph s) (s_wph s) (s_inq s) (s_cache s) (s_closed s) (s_wbuf s) (s_pread s) x.
+(* ghost updates *)
+Definition g_push (s : rstream) (slot : Z) : rstream :=
+  set_g s (mkSG ((slot, []) :: g_wlog (s_g s)) (g_rn (s_g s)) (g_rdc (s_g s))).
+Definition g_sent (s : rstream) (ps : list (list Z)) : rstream :=
+  set_g s (mkSG (match g_wlog (s_g s) with (w, cs) :: t => (w, rev_append ps cs) :: t | [] => [] end) (g_rn (s_g s)) (g_rdc (s_g s))).
+Definition g_open_seen (s : rstream) : rstream := set_g s (mkSG (g_wlog (s_g s)) (S (g_rn (s_g s))) (g_rdc (s_g s))).
+Definition g_chunk (s : rstream) (c : list Z) : rstream := set_g s (mkSG (g_wlog (s_g s)) (g_rn (s_g s)) (c :: g_rdc (s_g s))).
+Definition g_reader (s : rstream) : rstream := set_g s (mkSG (g_wlog (s_g s)) (g_rn (s_g s)) []).
 
 (* ------------------------------------------------------------------ dispatcher *)
 Inductive dstate :=
@@ -214,7 +231,11 @@ Definition write_all (wfsz : Z) (buf data : list Z) := write_loop (S (length dat
 Record queue := mkQueue { q_kind : Z; q_cap : Z; q_idle : list nat; q_pend : list Z }.
 
 (* a transient stream handle of the scripted application *)
-Record slotrec := mkSlot { sl_id : Z; sl_kind : Z; sl_sid : option nat; sl_r : bool; sl_w : bool; sl_woff : Z }.
+(* ghost of a handle: chunks its read_exact calls returned since it was handed its stream (latest
+   first), the incarnation of the reusable stream it was handed, whether one of its reads reported
+   end-of-stream *)
+Record slghost := mkLG { g_rd : list (list Z); g_inc : nat; g_eos : bool }.
+Record slotrec := mkSlot { sl_id : Z; sl_kind : Z; sl_sid : option nat; sl_r : bool; sl_w : bool; sl_woff : Z; sl_g : slghost }.
 
 Record endpoint := mkEp {
   e_cfg : cfg;
@@ -263,8 +284,10 @@ Definition emit (e : endpoint) (h : Z) (d : option (list Z)) : endpoint :=
               set_out e (e_out e ++ header_raw h ++ header_raw n ++ l) (e_log e ++ [[h; n]])
   end.
 
-Definition emit_data (e : endpoint) (k : Z) (i : nat) (payloads : list (list Z)) : endpoint :=
+Definition emit_frames (e : endpoint) (k : Z) (i : nat) (payloads : list (list Z)) : endpoint :=
   fold_left (fun e p => emit e (mk_header FK_DATA (kind_bits k) i) (Some p)) payloads e.
+Definition emit_data (e : endpoint) (k : Z) (i : nat) (payloads : list (list Z)) : endpoint :=
+  upd_stream (emit_frames e k i payloads) k i (fun s => g_sent s payloads).
 
 Definition release (e : endpoint) (f : frame) : endpoint := set_d e (add_permits (e_d e) 1 (fsize f)).
 
@@ -283,8 +306,10 @@ Definition upd_slot (e : endpoint) (s : Z) (f : slotrec -> slotrec) : endpoint :
 
 (* the reservation is answered: the transient stream (both halves) goes to the application *)
 Definition handover (e : endpoint) (k : Z) (i : nat) (slot : Z) : endpoint :=
-  let e := upd_stream e k i (fun s => set_wph (set_rph s RApp) WApp) in
-  let e := upd_slot e slot (fun r => mkSlot (sl_id r) (sl_kind r) (Some i) true true (sl_woff r)) in
+  let inc := match get_stream e k i with Some s => g_rn (s_g s) | None => O end in
+  let e := upd_stream e k i (fun s => g_reader (set_wph (set_rph s RApp) WApp)) in
+  let e := upd_slot e slot (fun r => mkSlot (sl_id r) (sl_kind r) (Some i) true true (sl_woff r)
+                                            (mkLG [] inc false)) in
   add_event e [slot; 0].
 
 (* after send_close: CONNECT goes to push(), ACCEPT first joins recv_open *)
@@ -312,6 +337,8 @@ Definition hash_bytes (l : list Z) : Z := fold_left (fun h b => (h * 31 + b + 1)
 Definition complete_read (e : endpoint) (k : Z) (i : nat) (p : pread) : endpoint :=
   let data := concat (rev (pr_chunks p)) in
   let e := upd_stream e k i (fun s => set_pread s None) in
+  let e := upd_slot e (pr_slot p) (fun r => mkSlot (sl_id r) (sl_kind r) (sl_sid r) (sl_r r) (sl_w r) (sl_woff r)
+                                              (mkLG (data :: g_rd (sl_g r)) (g_inc (sl_g r)) (g_eos (sl_g r) || (pr_len p <? pr_want p)))) in
   add_event e [pr_slot p; 1; pr_want p; Z.of_nat (length data); hash_bytes data].
 
 (* one iteration of the loop of ReadStream::read_exact, on the stream state alone:
@@ -333,7 +360,7 @@ Definition read_iter_s (s : rstream) (p : pread) : rres :=
         let got := firstn n (fdata f) in
         let rest := skipn n (fdata f) in
         let p' := mkPread (pr_slot p) (pr_want p) (pr_len p + Z.of_nat n) (got :: pr_chunks p) in
-        let s2 := set_pread s1 (Some p') in
+        let s2 := g_chunk (set_pread s1 (Some p')) got in
         let done := pr_len p' =? pr_want p in
         match rest with
         | [] => RStep s2 [f] done
@@ -359,7 +386,7 @@ Definition stream_step (e : endpoint) (k : Z) (i : nat) : option endpoint :=
       | RDiscard, f :: t =>
           (* recv_open: drop frames until an OPEN arrives *)
           let s1 := set_inq s t in
-          let s2 := if fkind f =? FK_OPEN then set_rph s1 RReady else s1 in
+          let s2 := if fkind f =? FK_OPEN then g_open_seen (set_rph s1 RReady) else s1 in
           Some (release (upd_stream e k i (fun _ => s2)) f)
       | _, _ =>
           match s_rph s, s_pread s with
@@ -382,8 +409,8 @@ Definition queue_step (e : endpoint) (q : queue) : option endpoint :=
       let k := q_kind q in
       let e := upd_queue e k (q_cap q) (fun _ => mkQueue k (q_cap q) idle pend) in
       let e := emit e (mk_header FK_OPEN (kind_bits k) i) None in
-      if k =? 0 then Some (handover e k i slot)
-      else Some (upd_stream e k i (fun s => set_wph s (WJoin slot)))
+      let e := upd_stream e k i (fun s => g_push (set_wph s (WJoin slot)) slot) in
+      if k =? 0 then Some (handover e k i slot) else Some e
   | _, _ => None
   end.
 
@@ -467,7 +494,7 @@ Definition ep_round (e : endpoint) : endpoint * bool :=
   end.
 
 (* ------------------------------------------------------------------ start of Mux::run *)
-Definition new_stream (cap : Z) : rstream := mkStream cap RDiscard WApp [] None false [] None.
+Definition new_stream (cap : Z) : rstream := mkStream cap RDiscard WApp [] None false [] None (mkSG [] O []).
 
 Fixpoint initial_close (e : endpoint) (k : Z) (n : nat) (i : nat) : endpoint :=
   match n with
@@ -515,7 +542,7 @@ Definition gen_bytes (f : Z -> Z) (from : Z) (n : Z) : list Z := gen_bytes_from 
 Definition skip (e : endpoint) (slot : Z) : endpoint := add_event e [slot; -1].
 
 Definition op_open (e : endpoint) (kind cap slot : Z) : endpoint :=
-  let e := set_slots e (e_slots e ++ [mkSlot slot kind None false false 0]) in
+  let e := set_slots e (e_slots e ++ [mkSlot slot kind None false false 0 (mkLG [] O false)]) in
   upd_queue e kind cap (fun q => mkQueue (q_kind q) (q_cap q) (q_idle q) (q_pend q ++ [slot])).
 
 Definition op_write (e : endpoint) (r : slotrec) (i : nat) (s : rstream) (n : Z) : endpoint :=
@@ -523,7 +550,7 @@ Definition op_write (e : endpoint) (r : slotrec) (i : nat) (s : rstream) (n : Z)
   let '(frames, buf) := write_all (wfs (e_cfg e)) (s_wbuf s) data in
   let e := emit_data e (sl_kind r) i frames in
   let e := upd_stream e (sl_kind r) i (fun s => set_wbuf s buf) in
-  upd_slot e (sl_id r) (fun r => mkSlot (sl_id r) (sl_kind r) (sl_sid r) (sl_r r) (sl_w r) (sl_woff r + n)).
+  upd_slot e (sl_id r) (fun r => mkSlot (sl_id r) (sl_kind r) (sl_sid r) (sl_r r) (sl_w r) (sl_woff r + Z.of_nat (length data)) (sl_g r)).
 
 Definition op_flush (e : endpoint) (r : slotrec) (i : nat) (s : rstream) : endpoint :=
   match s_wbuf s with
@@ -532,12 +559,12 @@ Definition op_flush (e : endpoint) (r : slotrec) (i : nat) (s : rstream) : endpo
   end.
 
 Definition op_dropw (e : endpoint) (r : slotrec) (i : nat) : endpoint :=
-  let e := upd_slot e (sl_id r) (fun r => mkSlot (sl_id r) (sl_kind r) (sl_sid r) (sl_r r) false (sl_woff r)) in
+  let e := upd_slot e (sl_id r) (fun r => mkSlot (sl_id r) (sl_kind r) (sl_sid r) (sl_r r) false (sl_woff r) (sl_g r)) in
   send_close e (sl_kind r) i.
 
 (* dropping the read half starts recv_open of the next incarnation: cache dropped, close flag reset *)
 Definition op_dropr (e : endpoint) (r : slotrec) (i : nat) (s : rstream) : endpoint :=
-  let e := upd_slot e (sl_id r) (fun r => mkSlot (sl_id r) (sl_kind r) (sl_sid r) false (sl_w r) (sl_woff r)) in
+  let e := upd_slot e (sl_id r) (fun r => mkSlot (sl_id r) (sl_kind r) (sl_sid r) false (sl_w r) (sl_woff r) (sl_g r)) in
   let e := match s_cache s with Some f => release e f | None => e end in
   upd_stream e (sl_kind r) i (fun s => set_closed (set_cache (set_rph s RDiscard) None) false).
 
